@@ -137,6 +137,8 @@ def rules(t, u, hist_tbl):
     add("G6/after_alias", "origin reference after alias()", (E.ColumnNotFoundError,), lambda: T >> pdt.alias("z") >> pdt.mutate(x=t.a))
     add("G6/unknown_in_on", "unknown column in join condition", (ValueError,), lambda: T >> pdt.join(u, pdt.C.nope == u.a, "inner"))
     add("G6/rename_unknown", "rename of an unknown column", (ValueError,), lambda: T >> pdt.rename({"nope": "x"}))
+    add("G6/rename_hidden_col", "rename of a hidden column given as a Col", (E.ColumnNotFoundError, ValueError), lambda: T >> pdt.select(t.s) >> pdt.rename({t.a: "y"}))
+    add("G6/group_by_hidden_col", "group_by of a hidden column", (ValueError, E.ColumnNotFoundError), lambda: T >> pdt.select(t.s) >> pdt.group_by(t.a))
     # G7 duplicate names
     add("G7/rename_collision", "rename onto an existing name", (ValueError,), lambda: T >> pdt.rename({"a": "s"}))
     add("G7/rename_two_to_one", "two columns renamed to one name", (ValueError,), lambda: T >> pdt.rename({"a": "zz", "s": "zz"}))
@@ -154,6 +156,10 @@ def rules(t, u, hist_tbl):
     add("G8/full_join_inequality", "full join with an inequality", (ValueError,), lambda: T >> pdt.join(u, t.a < u.a, "full"))
     # G9 slice_head on grouped
     add("G9/slice_head_grouped", "slice_head on a grouped table", (ValueError,), lambda: T >> pdt.group_by(t.a) >> pdt.slice_head(1))
+    add("G9/slice_head_negative_n", "slice_head with a negative n", (ValueError,), lambda: T >> pdt.slice_head(-1))
+    add("G9/slice_head_negative_offset", "slice_head with a negative offset", (ValueError,), lambda: T >> pdt.slice_head(2, offset=-2))
+    add("G8/join_transferred_references", "join of a table with a table that carries its column references (transfer_col_references)", (ValueError,),
+        lambda: T >> pdt.join(pdt.transfer_col_references(T >> pdt.alias("mat"), T), t.a == t.a, "inner"))
     # G10 markers outside arrange
     for pos, e in positions(lambda: t.a.descending(), t, "num"):
         add(f"G10/marker_in_mutate/{pos}", "ordering marker outside arrange", (TypeError,), lambda e=e: T >> pdt.mutate(x=e()))
